@@ -303,6 +303,8 @@ type Config struct {
 	DenyPerClient map[string][]string
 	// QuotaDenyUsers are refused by the quota handler.
 	QuotaDenyUsers []string
+	// QuotaPerUser limits the number of live allocations of a user (quota handler fed by events).
+	QuotaPerUser map[string]int
 	RelayIP4       net.IP
 	RelayIP6       net.IP
 	// NoEvents leaves the EventHandler empty.
@@ -495,12 +497,30 @@ func NewWorld(cfg Config, rec *Rec, rng *rand.Rand, bubble bool) (*World, error)
 			return ra.Username, turn.GenerateAuthKey(ra.Username, ra.Realm, pw), true
 		}
 	}
-	if len(cfg.QuotaDenyUsers) > 0 {
+	if len(cfg.QuotaDenyUsers) > 0 || len(cfg.QuotaPerUser) > 0 {
 		sc.QuotaHandler = func(username, _ string, _ net.Addr) bool {
 			for _, u := range cfg.QuotaDenyUsers {
 				if u == username {
 					return false
 				}
+			}
+			if max, ok := cfg.QuotaPerUser[username]; ok {
+				// an operator-style quota: live allocations of the user, counted from the lifecycle events
+				live := 0
+				w.mu.Lock()
+				for _, ev := range w.events {
+					if ev.User == username {
+						switch ev.Kind {
+						case "alloc+":
+							live++
+						case "alloc-":
+							live--
+						}
+					}
+				}
+				w.mu.Unlock()
+
+				return live < max
 			}
 
 			return true
